@@ -161,7 +161,13 @@ def reevalList (d : Nat) : List E → Except Err (List E)
       | _, .error x => .error x
 end
 
-/-- the fresh function standing for argument number `k` -/
+/-- the fresh function standing for argument number `k` (expr.py:761-773: `for arg in args:
+    tag = random_string(4); left = ScalarFunction(arg.space, name='l_' + tag) …` — a NEW tag for
+    every component of a product argument, so two components, also of the same kind, are never
+    replaced by the same function; the random tag is modelled by the position `k`, the names are
+    pairwise different by `Nat.repr_injective`, see `fresh_ne` in Lemmas/LinearProduct.lean).
+    An integrand in which no argument occurs is left unchanged by the substitution: it is then
+    compared with twice itself and rejected unless it is zero (there is no early exit). -/
 def fresh (pre : String) (k : Nat) : E → E
   | sf _ kd => sf (pre ++ toString k) kd
   | vf _ kd => vf (pre ++ toString k) kd
